@@ -37,7 +37,9 @@ type nrec = { id : int; alive : bool; o : obs; sendpending : bool; appapplied : 
               term : int; votei : int; commiti : int; snapii : int; voters_i : int list; learners_i : int list;
               nents : int }
 
-type msg = { mfrom : int; mtype : int; mto : int; mterm : int; mindex : int; mreject : bool }
+type msg = { mfrom : int; mtype : int; mto : int; mterm : int; mindex : int; mreject : bool;
+             mcommit : int; mlogterm : int; mmatch : int; msnapi : int; msnapt : int; ments : entry list;
+             mrawindex : int }
 
 exception Reject of string
 exception Skip of string
@@ -90,11 +92,22 @@ let label_str l =
 let debug = (try Sys.getenv "RAFTABS_DEBUG" <> "" with Not_found -> false)
 let cur_seq = ref 0
 let try_label l =
+  (* monitor: a second leader of a term is a violation whatever the configurations say *)
+  (match l with
+   | L_BecomeLeader c ->
+     let n = node_of !st c in
+     if role_eqb n.rl Candidate then
+     (match term_leader !st n.cur with
+      | Some c' when c' <> c ->
+        raise (Reject (Printf.sprintf "two leaders in term %d: node %d was elected, now node %d wins with the votes of a majority of its own configuration (the two configurations have disjoint majorities)" (int_ n.cur) (int_ c') (int_ c)))
+      | _ -> ())
+   | _ -> ());
   match apply_label !st l with
   | Some s' -> st := s'; incr n_labels; bump label_hist (label_name l);
     if debug then Printf.printf "  [%d] %s\n" !cur_seq (label_str l); true
   | None -> if debug then Printf.printf "  [%d] REFUSED %s\n" !cur_seq (label_str l); false
-let do_ l = if not (try_label l) then raise (Reject ("rule refused: " ^ label_str l))
+let do_ l =
+  if not (try_label l) then raise (Reject ("rule refused: " ^ label_str l))
 
 let node j = node_of !st (nat j)
 
@@ -140,6 +153,8 @@ let leader_work j (r : nrec) =
          later entries may not be persisted yet) *)
       let k = min r.commiti (List.length n.log) in
       if not (ackedb !st n.cur (nat k) (nat j)) then ignore (try_label (L_Ack (nat j, nat k)));
+      if not (commit_comparable !st (nat j) (nat r.commiti)) then
+        raise (Reject (Printf.sprintf "leader %d commits up to %d a prefix that conflicts with the log already committed" j r.commiti));
       ignore (try_label (L_AdvanceCommit (nat j, nat r.commiti)))
     end
   end
@@ -213,7 +228,8 @@ let sync_core j (r : nrec) (msgs : msg list) ~(conf_first : bool) =
             | 6 -> acts := A_Grant m.mto :: !acts
             | 4 -> acts := A_Ack m.mindex :: !acts
             | _ -> ()) msgs;
-      if rl0 = Some u || (u = r.term && rl0 = None && repl_level () = Some u) then acts := A_Repl :: !acts;
+      if (rl0 = Some u || (u = r.term && rl0 = None && repl_level () = Some u))
+         && not (u = r.term && r.o.o_role = Leader && (node j).rl = Candidate) then acts := A_Repl :: !acts;
       let try_action a =
         match a with
         | A_Expose ->
@@ -284,8 +300,10 @@ let sync_core j (r : nrec) (msgs : msg list) ~(conf_first : bool) =
     if not (n.rl = Leader && try_label (L_AdvanceCommit (nj, nat r.commiti))) then begin
       if n.rl = Leader then begin
         align_conf ();
-        if not (try_label (L_AdvanceCommit (nj, nat r.commiti))) then do_ (L_LearnCommit (nj, nat r.commiti))
-      end else do_ (L_LearnCommit (nj, nat r.commiti))
+        if not (try_label (L_AdvanceCommit (nj, nat r.commiti))) && not (try_label (L_LearnCommit (nj, nat r.commiti))) then
+          raise (Reject (Printf.sprintf "leader %d advanced its commit index to %d: no majority of the voters of its configuration has acknowledged that index in term %d (or the entry is not of its term), and the prefix is not committed otherwise" j r.commiti r.term))
+      end else if not (try_label (L_LearnCommit (nj, nat r.commiti))) then
+        raise (Reject (Printf.sprintf "node %d advanced its commit index to %d, but that prefix of its log is not committed (rule refused: LearnCommit)" j r.commiti))
     end
   end;
   let n = node j in
@@ -375,6 +393,33 @@ let flush_applied () =
           ignore (Queue.pop q)
         end
       done) pend_app
+
+(* what leaves a node must be justified by its state and the history (direct checks on the messages) *)
+let n_msgs_checked = ref 0
+let check_message j (m : msg) =
+  let t = nat m.mterm in
+  match m.mtype with
+  | 3 ->
+    incr n_msgs_checked;
+    if not (msgapp_ok !st t (nat m.mindex) (nat m.mlogterm) m.ments) then
+      raise (Reject (Printf.sprintf "MsgApp %d->%d term %d prev (%d, term %d) with %d entries is not a slice of the log of the leader of that term"
+                       j m.mto m.mterm m.mrawindex m.mlogterm (List.length m.ments)));
+    let n = node j in
+    if int_ n.cur = m.mterm && m.mcommit > int_ n.commit then
+      raise (Reject (Printf.sprintf "MsgApp %d->%d carries commit %d above the sender's commit index %d" j m.mto m.mcommit (int_ n.commit)))
+  | 8 ->
+    incr n_msgs_checked;
+    (* the recorded Match is the one after the step: comparable only if the sender still leads that term *)
+    let n = node j in
+    if n.rl = Leader && int_ n.cur = m.mterm && m.mmatch >= 0 && m.mcommit > m.mmatch then
+      raise (Reject (Printf.sprintf "MsgHeartbeat %d->%d carries commit %d above the leader's Match %d for that follower" j m.mto m.mcommit m.mmatch));
+    if not (heartbeat_ok !st t (nat m.mto) (nat m.mcommit)) then
+      raise (Reject (Printf.sprintf "MsgHeartbeat %d->%d term %d carries commit %d: the follower has not acknowledged that index in this term (or it is not committed)" j m.mto m.mterm m.mcommit))
+  | 7 ->
+    incr n_msgs_checked;
+    if not (snapshot_ok !st t (nat m.msnapi) (nat m.msnapt)) then
+      raise (Reject (Printf.sprintf "MsgSnap %d->%d at index %d term %d is not a committed prefix" j m.mto m.msnapi m.msnapt))
+  | _ -> ()
 
 (* ---------- event loop ---------- *)
 
@@ -483,7 +528,8 @@ let handle_event (e : ev) =
             Hashtbl.remove dirty j;
             let msgs = List.filter (fun m -> m.mfrom = j) e.slines in
             if msgs <> [] || not (match_node (node j) r.o) then sync j r msgs;
-            check_match j r e.kind
+            check_match j r e.kind;
+            List.iter (check_message j) msgs
           end
         | _ -> ()) (List.rev !touched);
     List.iter (fun (j, i, k, en) ->
@@ -537,9 +583,19 @@ let () =
         cur_ev := Some { seq = ios seq; kind; en = ios n; subs = (if subs = "-" then [] else split_on ',' subs); ex = ios x;
                          nraw = []; nlines = []; slines = []; alines = []; panic = None }
       | "N" :: f -> (match !cur_ev with Some e -> e.nraw <- e.nraw @ [parse_n_raw f] | None -> ())
-      | "S" :: from :: ty :: to_ :: term :: index :: rej :: _ ->
+      | "S" :: from :: ty :: to_ :: term :: index :: rej :: rest ->
         (match !cur_ev with
-         | Some e -> e.slines <- e.slines @ [{ mfrom = ios from; mtype = ios ty; mto = ios to_; mterm = ios term; mindex = shift (ios index); mreject = (rej = "1") }]
+         | Some e ->
+           let commit, logterm, mmatch, snapi, snapt, ents =
+             (match rest with
+              | c :: lt :: mm :: si :: st :: en :: _ -> ios c, ios lt, ios mm, ios si, ios st, parse_log en
+              | _ -> 0, 0, -1, 0, 0, []) in
+           let raw = ios index in
+           (* entries with index <= boot_len are the bootstrap entries: not part of the abstract log *)
+           let ents = if ios ty = 3 then drop (max 0 (!boot_len - raw)) ents else ents in
+           e.slines <- e.slines @ [{ mfrom = ios from; mtype = ios ty; mto = ios to_; mterm = ios term; mindex = shift raw; mreject = (rej = "1");
+                                     mcommit = shift commit; mlogterm = logterm; mmatch = (if mmatch < 0 then -1 else shift mmatch);
+                                     msnapi = shift snapi; msnapt = snapt; ments = ents; mrawindex = raw }]
          | None -> ())
       | "A" :: node :: i :: t :: k :: p :: x :: _ ->
         (match !cur_ev with
@@ -559,5 +615,5 @@ let () =
       | _ -> ()
       with Failure why -> (if not !rejected then begin rejected := true; incr n_rej;
                              Printf.printf "%s\tREJECT\t-1\tinput\tmalformed trace line (%s)\n" !cur_tid why end));
-  Printf.printf "SUMMARY\ttraces=%d\trejected=%d\tskipped_traces=%d\tevents=%d\tunchecked_events=%d\tabstract_steps=%d\tnode_matches=%d\tapplied_checked=%d\tsingle_config_traces=%d\toverlap_ok_traces=%d\tlabels:%s\tevents:%s\tskipped:%s\n"
-    !n_traces !n_rej !n_skip !n_events !unchecked !n_labels !n_matches !n_applied !n_fixed !n_overlap_ok (hist_str label_hist) (hist_str ev_hist) (hist_str skipped)
+  Printf.printf "SUMMARY\ttraces=%d\trejected=%d\tskipped_traces=%d\tevents=%d\tunchecked_events=%d\tabstract_steps=%d\tnode_matches=%d\tapplied_checked=%d\tmessages_checked=%d\tsingle_config_traces=%d\toverlap_ok_traces=%d\tlabels:%s\tevents:%s\tskipped:%s\n"
+    !n_traces !n_rej !n_skip !n_events !unchecked !n_labels !n_matches !n_applied !n_msgs_checked !n_fixed !n_overlap_ok (hist_str label_hist) (hist_str ev_hist) (hist_str skipped)
